@@ -6,7 +6,7 @@ import ast
 from ..cfg import iter_own
 from ..loader import AnalysisError, FuncInfo, dotted, walk_own
 from . import c04
-from .common import Anchors, call_name, def_use_closure, is_const, names_in, self_attr
+from .common import Anchors, call_name, def_use_closure, find_assign_sources, is_const, names_in, self_attr
 from .discharge import controlling_tests
 from .tables import expand_alias, table_mutations
 
@@ -97,6 +97,22 @@ def forwarding(ctx, g: FuncInfo, target: FuncInfo, remap_ok: tuple = ()) -> list
             else:
                 problems.append(f"parameter `{p}` is forwarded as `{ast.unparse(passed)}`")
         # positional mismatch: p passed at another parameter's position
+    # a forwarded parameter is the caller's object, not a wrapper built around it
+    for p in params:
+        for x in walk_own(g.node):
+            tg_ = []
+            if isinstance(x, ast.Assign):
+                tg_ = x.targets
+            elif isinstance(x, (ast.AnnAssign, ast.AugAssign)) and getattr(x, "value", None) is not None:
+                tg_ = [x.target]
+            if any(isinstance(t_, ast.Name) and t_.id == p for t_ in tg_):
+                v_ = x.value
+                # harmless rebinds: a constant, an attribute of self (the default-name remap),
+                # another parameter, or a normalising call that does not involve the parameter
+                plain = isinstance(v_, ast.Constant) or (isinstance(v_, ast.Attribute) and dotted(v_) is not None) or (isinstance(v_, ast.Name) and v_.id in g.params)
+                wraps = not plain and (any(isinstance(c_, ast.Name) and c_.id == p for c_ in ast.walk(v_)) or isinstance(v_, (ast.Name, ast.Lambda)) or any(isinstance(c_, ast.Lambda) for c_ in ast.walk(v_)))
+                if wraps:
+                    problems.append(f"parameter `{p}` is replaced by `{ast.unparse(v_)[:60]}` before it is forwarded")
     # the same defaults: calling the wrapper without an argument means what calling the target
     # without it means
     for p in params:
@@ -269,14 +285,15 @@ def run(ctx) -> None:
         rep.hold("C02.R1", init, init.node, "no context's tables are read through another context outside the constructor", nontrivial=False)
     # get_resources must select by membership of the requested type in the container's types
     gr = an.ctx_method("get_resources")
+    # (comprehensions have been lowered to loops by the normalisation pre-pass)
+    tparam = gr.params[1] if len(gr.params) > 1 else "type"
+    gcfg = a.cfg(gr)
+    filt = [t for t in gcfg.live_nodes() if t.kind == "test" and isinstance(t.ast, ast.AST) and tparam in names_in(t.ast)]
     comps = [x for x in walk_own(gr.node) if isinstance(x, (ast.DictComp, ast.ListComp, ast.GeneratorExp, ast.SetComp))]
-    ok = False
-    for c in comps:
-        for g in c.generators:
-            for cond in g.ifs:
-                if isinstance(cond, ast.Compare) and isinstance(cond.ops[0], ast.In) and isinstance(cond.left, ast.Name) and cond.left.id == gr.params[1]:
-                    ok = True
-    rep.check("C02.R3", ok or not comps, gr, gr.node, "get_resources selects containers by the requested type", "get_resources does not filter by the requested type")
+    conds = [t.ast for t in filt] + [cond for c in comps for g_ in c.generators for cond in g_.ifs if tparam in names_in(cond)]
+    by_value = [c for c in conds if any(isinstance(x, ast.Compare) and any(isinstance(o, (ast.In, ast.Eq)) for o in x.ops) and tparam in names_in(x) for x in ast.walk(c))]
+    by_identity = [c for c in conds if any(isinstance(x, ast.Compare) and any(isinstance(o, (ast.Is, ast.IsNot)) for o in x.ops) and tparam in names_in(x) and not any(isinstance(k, ast.Constant) and k.value is None for k in x.comparators) for x in ast.walk(c))]
+    rep.check("C02.R3", bool(by_value) and not by_identity, gr, (by_identity or conds or [gr.node])[0], "get_resources selects containers by the requested type (membership / equality, as the other lookups' dictionary keys do)", "get_resources does not filter by the requested type, or compares it by identity: equal but not identical types (list[int], Union[...]) are found by get_resource() but not listed by get_resources()")
 
     # every lookup path agrees on what is visible: the sync API never answers "not there" for
     # a resource the async API produces (shared with C04.R3)
@@ -298,7 +315,15 @@ def run(ctx) -> None:
             n_fw += 1
             probs = forwarding(ctx, sc, target)
             # the receiver must be current_context()
-            recv_ok = any(isinstance(c.func, ast.Attribute) and isinstance(c.func.value, ast.Call) and call_name(c.func.value) == "current_context" for c, cal in a.func_calls(sc) if cal.kind == "func" and cal.func is target)
+            def _is_current(sc_, recv) -> bool:
+                if isinstance(recv, ast.Call) and call_name(recv) == "current_context":
+                    return True
+                if isinstance(recv, ast.Name):
+                    srcs = find_assign_sources(sc_, recv.id)
+                    return bool(srcs) and all(isinstance(v_, ast.Call) and call_name(v_) == "current_context" for v_ in srcs)
+                return False
+
+            recv_ok = any(isinstance(c.func, ast.Attribute) and _is_current(sc, c.func.value) for c, cal in a.func_calls(sc) if cal.kind == "func" and cal.func is target)
             if not recv_ok:
                 probs.append("the receiver is not current_context()")
             rep.check("C02.R4", not probs, sc, sc.node, f"{name}() forwards every parameter to current_context().{name}", f"shortcut {name}(): " + "; ".join(probs))
@@ -316,7 +341,7 @@ def run(ctx) -> None:
     unwrap = [t for t in walk_own(cinit.node) if isinstance(t, (ast.If, ast.While)) and "isinstance" in ast.unparse(t.test) and an.ComponentContext.name in ast.unparse(t.test)]
     unwraps_to_wrapped = any(isinstance(x, ast.Assign) and isinstance(x.value, ast.Attribute) and x.value.attr == an.wrapped_attr for t in unwrap for b in t.body for x in ast.walk(b)) or any(isinstance(t, ast.While) and "isinstance" in ast.unparse(t.test) and an.ComponentContext.name in ast.unparse(t.test) and any(isinstance(x, ast.Assign) and isinstance(x.value, ast.Attribute) and x.value.attr == an.wrapped_attr for b in t.body for x in ast.walk(b)) for t in walk_own(cinit.node))
     cicfg = a.cfg(cinit)
-    wstores = [n for n in cicfg.live_nodes() if n.kind == "stmt" and isinstance(n.ast, (ast.Assign, ast.AnnAssign)) and any(self_attr(t) == an.wrapped_attr for t in (n.ast.targets if isinstance(n.ast, ast.Assign) else [n.ast.target]))]
+    wstores = [n for n in cicfg.live_nodes() if n.kind == "stmt" and isinstance(n.ast, (ast.Assign, ast.AnnAssign)) and getattr(n.ast, "value", None) is not None and any(self_attr(t) == an.wrapped_attr for t in (n.ast.targets if isinstance(n.ast, ast.Assign) else [n.ast.target]))]
     utests = [t for t in cicfg.live_nodes() if t.kind == "test" and any(t.ast is u.test for u in unwrap)]
     unwrap_first = bool(wstores) and bool(utests) and all(cicfg.dominates(utests[0].id, w_.id) for w_ in wstores)
     rep.check("C02.R4", bool(unwrap) and unwraps_to_wrapped and unwrap_first, cinit, unwrap[0] if unwrap else cinit.node, "component contexts are unwrapped when choosing the context to delegate to", "a ComponentContext may delegate to another ComponentContext (which exits sooner)")
@@ -386,7 +411,79 @@ def run(ctx) -> None:
             re_ = [icfg.nodes[i] for i in body if icfg.nodes[i].kind == "stmt" and isinstance(icfg.nodes[i].ast, ast.Assign) and isinstance(icfg.nodes[i].ast.value, ast.Attribute) and icfg.nodes[i].ast.value.attr == an.wrapped_attr]
             rep.check("C02.R5", bool(re_), init, skip.ast, "component contexts are replaced by the real context they wrap", "the component-context skip does not move to the wrapped context")
             copies = [n for n in icfg.live_nodes() if n.kind in ("stmt", "for_iter") and icfg.own_ast(n) is not None and any(isinstance(x, ast.Attribute) and x.attr in tables and dotted(x.value) != "self" for x in iter_own(icfg.own_ast(n)))]
-            rep.check("C02.R5", bool(copies) and all(icfg.dominates(skip.id, c.id) for c in copies), init, skip.ast, "the skip happens before the parent's tables are read", "the tables are copied from the component context before it is skipped")
+            # forward "may still be a ComponentContext" analysis over the constructor: the value
+            # chosen as parent may be one until it has left the isinstance(.., ComponentContext)
+            # loop (false edge) or is known to be None; copies must read from a cleared value
+            CCN = an.ComponentContext.name
+
+            def _var(e):
+                d_ = dotted(e)
+                return d_ if d_ else None
+
+            may: dict = {n.id: None for n in icfg.live_nodes()}  # node -> set of vars that may be a CC (None = unreached)
+            may[icfg.entry] = set()
+            work = [icfg.entry]
+
+            def _transfer(n, inset):
+                out = set(inset)
+                if n.kind == "stmt" and isinstance(n.ast, (ast.Assign, ast.AnnAssign)) and getattr(n.ast, "value", None) is not None:
+                    tgs = n.ast.targets if isinstance(n.ast, ast.Assign) else [n.ast.target]
+                    v = n.ast.value
+                    if n.id in {x[0].id for x in sel}:
+                        tainted = True
+                    elif _var(v) is not None:
+                        tainted = _var(v) in inset
+                    elif isinstance(v, ast.Attribute) and v.attr == an.wrapped_attr and _var(v.value) is not None:
+                        tainted = _var(v.value) in inset
+                    else:
+                        tainted = False
+                    for t_ in tgs:
+                        tv = _var(t_)
+                        if tv is None:
+                            continue
+                        if tainted:
+                            out.add(tv)
+                        else:
+                            out.discard(tv)
+                return out
+
+            def _edge(n, lab, outset):
+                if n.kind != "test":
+                    return outset
+                e_, pol = n.ast, True
+                while isinstance(e_, ast.UnaryOp) and isinstance(e_.op, ast.Not):
+                    e_, pol = e_.operand, not pol
+                taken = (lab == "t") == pol  # the stripped expression is true on this edge
+                res = set(outset)
+                if isinstance(e_, ast.Call) and call_name(e_) == "isinstance" and len(e_.args) == 2 and CCN in ast.unparse(e_.args[1]) and _var(e_.args[0]):
+                    if not taken:
+                        res.discard(_var(e_.args[0]))
+                elif isinstance(e_, ast.Compare) and len(e_.ops) == 1 and isinstance(e_.comparators[0], ast.Constant) and e_.comparators[0].value is None and _var(e_.left):
+                    is_none = isinstance(e_.ops[0], ast.Is) == taken
+                    if is_none:
+                        res.discard(_var(e_.left))
+                elif _var(e_) is not None and not taken:
+                    res.discard(_var(e_))  # falsy: not a context object at all
+                return res
+
+            while work:
+                nid = work.pop()
+                n = icfg.nodes[nid]
+                outset = _transfer(n, may[nid])
+                for d_, lab in n.succ:
+                    if lab in ("e", "h"):
+                        continue
+                    s_ = _edge(n, lab, outset)
+                    if may[d_] is None or not s_ <= may[d_]:
+                        may[d_] = (may[d_] or set()) | s_
+                        work.append(d_)
+            dirty = []
+            for c in copies:
+                inset = may.get(c.id) or set()
+                for x in iter_own(icfg.own_ast(c)):
+                    if isinstance(x, ast.Attribute) and x.attr in tables and dotted(x.value) != "self" and (dotted(x.value) or "") in inset:
+                        dirty.append((c, x))
+            rep.check("C02.R5", bool(copies) and not dirty, init, dirty[0][0].ast if dirty and isinstance(dirty[0][0].ast, ast.AST) else skip.ast, "whatever the parent's tables are read from has left the component-context skip (or is None) on every path", f"`{ast.unparse(dirty[0][1]) if dirty else ''}` may still be a ComponentContext when its tables are copied: the child snapshots the component context's stale tables")
         # nothing else moves the parent link: every other (re)definition of the chosen value
         # must be a plain copy of it or the component-context skip
         sel_nodes = {x[0].id for x in sel}
